@@ -501,11 +501,69 @@ func (w *world) payTxs(kind string, u refchain.UTXO) []*reftx.Tx {
 		return []*reftx.Tx{w.mkTx(u, []refchain.Outpoint{w.fund()}, []reftx.Out{w.xo(0), o1(1e8 - 100000), w.xo(100000)})}
 	case "payedge": // outputs exactly at the configurable minimums 1001 and 100001
 		return []*reftx.Tx{w.mkTx(u, []refchain.Outpoint{w.fund()}, []reftx.Out{w.xo(1001), o1(1e8 - 101002), w.xo(100001)})}
+	case "paymany": // four transactions with EIGHT outputs to X each (vout 0..7, change at vout 8)
+		var l []*reftx.Tx
+		for k := 0; k < 4; k++ {
+			var outs []reftx.Out
+			var sum uint64
+			for i := 0; i < 8; i++ {
+				v := uint64(2000 + 1000*k + 100*i)
+				outs = append(outs, w.xo(v))
+				sum += v
+			}
+			l = append(l, w.mkTx(u, []refchain.Outpoint{w.fund()}, append(outs, o1(1e8-sum))))
+		}
+		return l
 	case "pay2same": // several outputs of ONE transaction to X (one of them below the minimum)
 		return []*reftx.Tx{w.mkTx(u, []refchain.Outpoint{w.fund()}, []reftx.Out{w.xo(70000), o1(1e8 - 72000), w.xo(minVal - 1), w.xo(minVal)})}
 	}
 	hfail("unknown pay kind %s", kind)
 	return nil
+}
+
+// sparseSpends: for every 9-output transaction of paymany that still has outputs to spend, one
+// transaction spending all its outputs to X EXCEPT a pattern that depends on its position in the
+// block: only vout 7 / only vout 0 / vouts 3 and 6 / only vout 1 stay unspent - records whose live
+// outputs are not a prefix of the vouts. With u == nil only the (unfinalised) count matters.
+func (w *world) sparseSpends(u refchain.UTXO, coins []xcoin) (l []*reftx.Tx) {
+	keep := [][]uint32{{7}, {0}, {3, 6}, {1}}
+	byTx := map[[32]byte][]xcoin{}
+	var order [][32]byte
+	for _, c := range coins {
+		if c.nouts != 9 {
+			continue
+		}
+		if _, ok := byTx[c.op.Tx]; !ok {
+			order = append(order, c.op.Tx)
+		}
+		byTx[c.op.Tx] = append(byTx[c.op.Tx], c)
+	}
+	for _, id := range order {
+		cs := byTx[id]
+		var ins []refchain.Outpoint
+		var sum uint64
+		for _, c := range cs {
+			kept := false
+			for _, k := range keep[(cs[0].txidx-1)%4] {
+				if c.op.Vout == k {
+					kept = true
+				}
+			}
+			if !kept {
+				ins = append(ins, c.op)
+				sum += c.c.Value
+			}
+		}
+		if len(ins) == 0 {
+			continue
+		}
+		if u == nil {
+			l = append(l, nil)
+			continue
+		}
+		l = append(l, w.mkTx(u, ins, []reftx.Out{o1(sum)}))
+	}
+	return
 }
 
 func (w *world) connect(name string, txs []*reftx.Tx) {
@@ -535,6 +593,8 @@ func (w *world) enabled() []string {
 			ok = n >= 1
 		case "spendNewest":
 			ok = n >= 2
+		case "spendsparse":
+			ok = len(w.sparseSpends(nil, w.coinsOf(w.X.Script, w.tip()))) > 0
 		case "disable", "saveload":
 			ok = w.on
 		case "enable":
@@ -566,8 +626,10 @@ func (w *world) event(name string) {
 		return
 	}
 	switch name {
-	case "pay1", "pay3", "pay2same", "payzero", "payedge":
+	case "pay1", "pay3", "pay2same", "payzero", "payedge", "paymany":
 		w.connect(name, w.payTxs(name, u))
+	case "spendsparse":
+		w.connect(name, w.sparseSpends(u, coins))
 	case "spendOldest":
 		w.connect(name, []*reftx.Tx{w.mkTx(u, ops(coins[:1]), spendOuts(coins[:1]))})
 	case "spendNewest":
@@ -740,6 +802,61 @@ func (w *world) oracle(after string) {
 				d += " (duplicate entries returned)"
 			}
 			panic(violation{"getallunspent-mismatch/" + a.Name, fmt.Sprintf("after %s: GetAllUnspent(%s) differs from the UTXO projection: %s", after, a.Name, d)})
+		}
+	}
+	// 1b. the SAME witness program under every other witness version 0..16 (and the legacy hashes
+	// under the other legacy kind): the answer is exactly the outputs whose script equals THAT
+	// address's script - normally none
+	for _, a := range addrs {
+		if a.Addr == nil {
+			continue
+		}
+		type q struct {
+			name   string
+			script []byte
+			addr   *btc.BtcAddr
+		}
+		var qs []q
+		base := a.Addr()
+		if base.SegwitProg != nil {
+			prog := base.SegwitProg.Program
+			for v := 0; v <= 16; v++ {
+				if v == base.SegwitProg.Version {
+					continue
+				}
+				opc := byte(0)
+				if v > 0 {
+					opc = byte(0x50 + v)
+				}
+				qs = append(qs, q{fmt.Sprintf("%s-program-as-witness-v%d", a.Name, v), append([]byte{opc, byte(len(prog))}, prog...),
+					&btc.BtcAddr{SegwitProg: &btc.SegwitProg{HRP: "bc", Version: v, Program: append([]byte{}, prog...)}}})
+			}
+		} else {
+			other := &btc.BtcAddr{Version: 5 - base.Version, Hash160: base.Hash160} // 0 <-> 5
+			sc := append(append([]byte{0xa9, 0x14}, base.Hash160[:]...), 0x87)
+			if other.Version == 0 {
+				sc = append(append([]byte{0x76, 0xa9, 0x14}, base.Hash160[:]...), 0x88, 0xac)
+			}
+			qs = append(qs, q{a.Name + "-hash-as-other-legacy-kind", sc, other})
+		}
+		for _, x := range qs {
+			want := map[string]bool{}
+			for o, c := range got {
+				if bytes.Equal(c.Script, x.script) && c.Value >= w.effMin {
+					want[fmt.Sprintf("%x:%d v=%d", o.Tx, o.Vout, c.Value)] = true
+				}
+			}
+			have := map[string]bool{}
+			for _, u := range wallet.GetAllUnspent(x.addr) {
+				have[fmt.Sprintf("%x:%d v=%d", u.TxPrevOut.Hash, u.TxPrevOut.Vout, u.Value)] = true
+			}
+			if d := setDiff(want, have); d != "" {
+				kind := "other-witness-version"
+				if base.SegwitProg == nil {
+					kind = "other-legacy-kind"
+				}
+				panic(violation{"getallunspent-foreign-address/" + kind, fmt.Sprintf("after %s: GetAllUnspent(%s) returns outputs that do not pay to that address's script %x: %s", after, x.name, x.script, d)})
+			}
 		}
 	}
 	// 2. Browse: one record per paid-to script, with exact Count / Value / inputs
@@ -1357,6 +1474,18 @@ type script struct {
 }
 
 func scripts() (l []script) {
+	// sparse: the index is BUILT (wallet on, off/on, save+load) over a set that holds partly spent
+	// multi-output transactions whose live outputs are not a vout prefix (only vout 7 / only vout 0 /
+	// vouts 3,6 / only vout 1 of nine), in the orders the UTXO map yields for several blocks of them
+	for _, focus := range []int{0, 1, 3, 4} { // P2PKH, P2SH, P2WSH, P2TR
+		l = append(l,
+			script{focus, []string{"paymany", "spendsparse", "disable", "enable"}},
+			script{focus, []string{"paymany", "paymany", "spendsparse", "disable", "enable", "spendAll"}},
+			script{focus, []string{"disable", "paymany", "paymany", "paymany", "spendsparse", "enable", "paymany", "spendsparse", "saveload"}},
+			script{focus, []string{"paymany", "spendsparse", "paymany", "disable", "setmap:5", "enable", "spendsparse", "disable", "enable"}},
+			script{focus, []string{"paymany", "paymany", "spendsparse", "reorgEmpty", "disable", "enable", "spendsparse", "disable", "enable"}},
+		)
+	}
 	for _, focus := range []int{0, 3} { // P2PKH, P2WSH
 		for _, v := range []int{0, 999, 1000, 1001, 100000, 100001} {
 			for _, m := range []int{1, 3, 5} {
@@ -1386,7 +1515,7 @@ func scripts() (l []script) {
 // runScripts: the scripted histories run first and are not subject to the wall-clock budget.
 func (x *explorer) runScripts(l []script) {
 	res := make([]*Result, len(l))
-	menu := append(append(append([]string{}, allEvents...), "payzero", "payedge"), configEvents...)
+	menu := append(append(append([]string{}, allEvents...), "payzero", "payedge", "paymany", "spendsparse"), configEvents...)
 	var wg sync.WaitGroup
 	for i := range l {
 		x.sem <- struct{}{}
@@ -1563,7 +1692,7 @@ func main() {
 		"prefix_dirs_rebuilt":               x.rebuilt,
 		"worker_cpu_s":                      float64(atomic.LoadInt64(&workerCPU)/1e7) / 100,
 		"samples":                           x.samples.L,
-		"rule": "BFS over event histories per focus address type (P2PKH, P2SH, P2WPKH, P2WSH, P2TR, non-standard; all other types present as static background outputs) plus scripted histories (zero-value and at-minimum outputs to a used address under every minimum 0/999/1000/1001/100000/100001 and UseMapCnt 1/3/5, then the other outputs spent one by one, reorganisations, index built over the populated set; run first, not subject to the budget) and one configuration exploration (config/P2PKH: block/reorg events combined with setmin:<v> / setmap:<v> while the index is off, then LoadBalancesFromUtxo over the populated set; oracle = projection under the minimum in force); every history runs in a fresh worker process on a copy of a 105-block chain; " +
+		"rule": "BFS over event histories per focus address type (P2PKH, P2SH, P2WPKH, P2WSH, P2TR, non-standard; all other types present as static background outputs) plus scripted histories (index built over partly spent 9-output transactions whose live outputs are sparse vouts; zero-value and at-minimum outputs to a used address under every minimum 0/999/1000/1001/100000/100001 and UseMapCnt 1/3/5, then the other outputs spent one by one, reorganisations, index built over the populated set; run first, not subject to the budget) and one configuration exploration (config/P2PKH: block/reorg events combined with setmin:<v> / setmap:<v> while the index is off, then LoadBalancesFromUtxo over the populated set; oracle = projection under the minimum in force); every history runs in a fresh worker process on a copy of a 105-block chain; " +
 			"oracle after every delivered block / wallet switch for every address of the alphabet; state key = (index on/off, snapshot saved for tip, observed list/map representation, X's outputs in creation order with age class/tx index/vout/value, X-outputs spent by the two topmost blocks); " +
 			"type-symmetry reduction: full depth for the deep focus types, reduced depth for the others (per_focus.depth_target)",
 	}, []string{
@@ -1573,6 +1702,7 @@ func main() {
 		"representation (list/map) is read with reflect from the unexported field unspMap; it only enters the state key",
 		"callback scheduling inside UnspentDB.commit (parallel add/del workers) is left to the Go scheduler here; its exhaustive exploration is C11 scenario S2",
 		"8-byte txid-prefix collisions in the UTXO key are outside the alphabet",
+		"every oracle evaluation also queries each funded witness program under every other witness version 0..16 and each legacy hash under the other legacy kind; expected = outputs whose script equals that address's script",
 	})
 }
 
@@ -1599,7 +1729,7 @@ func replay(x *explorer, file string) int {
 	if focus < 0 {
 		ev.HarnessError("unknown focus %q", rec.Replay.Focus)
 	}
-	res := x.run(run{focus: focus, menu: append(append(append([]string{}, allEvents...), "payzero", "payedge"), configEvents...)}, rec.Replay.Events)
+	res := x.run(run{focus: focus, menu: append(append(append([]string{}, allEvents...), "payzero", "payedge", "paymany", "spendsparse"), configEvents...)}, rec.Replay.Events)
 	for _, s := range res.Trace {
 		fmt.Fprintf(ev.Out, "  %s -> %s\n", s.Ev, s.Result)
 	}
